@@ -54,6 +54,7 @@ import functools as ft
 import hashlib
 import sys
 from collections.abc import Sequence
+from importlib import _bootstrap_external
 from importlib.abc import MetaPathFinder
 from importlib.machinery import SourceFileLoader
 from importlib.util import cache_from_source, decode_source
@@ -67,7 +68,16 @@ def _call_with_frames_removed(f, *args, **kwargs):
     return f(*args, **kwargs)
 
 
-def _optimized_cache_from_source(typechecker_hash, /, path, debug_override=None):
+def _optimized_cache_from_source(
+    typechecker_hash, own_path, fallback, /, path, debug_override=None, **kwargs
+):
+    # The monkey patch below is process-wide, and import locks are per-module: whilst
+    # one thread obtains the code of an instrumented module, another thread may be
+    # importing something else. Only the instrumented module itself gets our marker;
+    # everything else goes to whatever was installed before us (importlib's own
+    # function, or the patch of another instrumented module being loaded right now).
+    if path != own_path:
+        return fallback(path, debug_override, **kwargs)
     # Version 2: change the position of the `@jaxtyped` decorator, so need a
     #     different name to avoid hitting old __pycache__.
     # Version 3: now also annotating classes.
@@ -228,7 +238,12 @@ class _JaxtypingLoader(SourceFileLoader):
         # it imports (instrumented or not) would be cached under our marker as well.
         with patch(
             "importlib._bootstrap_external.cache_from_source",
-            ft.partial(_optimized_cache_from_source, self._typechecker.get_hash()),
+            ft.partial(
+                _optimized_cache_from_source,
+                self._typechecker.get_hash(),
+                self.get_filename(fullname),
+                _bootstrap_external.cache_from_source,
+            ),
         ):
             return super().get_code(fullname)
 
